@@ -201,6 +201,8 @@ type Config struct {
 	Decl DeclFinder
 	// RecvStruct: the receiver of the analysed method is this object (struct mode).
 	RecvStruct *StructVal
+	// ParamValues: pre-bound parameter values by name (struct mode: an object passed to a wrapper's constructor).
+	ParamValues map[string]Value
 	// UnrollConst: counted loops with constant bounds are unrolled concretely (estimator accumulators over a pool of one thread).
 	UnrollConst bool
 	// IntSyms: symbols known to denote integers (trunc(s) = s).
@@ -316,6 +318,9 @@ func (it *Interp) runOnce(fd *ast.FuncDecl) (p *Path, und *Undecided) {
 				name = n.Name
 			}
 			v := it.paramValue(obj.Type(), name, n.Pos())
+			if pv, ok := it.cfg.ParamValues[n.Name]; ok {
+				v = pv
+			}
 			for _, a := range it.cfg.Alias {
 				if a == k {
 					if _, ok := v.(*Loc); ok && recv != nil {
